@@ -495,22 +495,19 @@ class C19B(Mode):
         if c.closed_use:
             u = c.closed_use[0]
             self.viol('statement-on-closed-connection', shape, '%r' % (u,))
-        # a session may fail only for its own reasons: an injected fault in that thread, its own
-        # natural error, or SQLite contention ("database is locked") - never a leftover of another session
+        # Concurrent sessions may legitimately fail for data reasons (optimistic checks, unique keys,
+        # SQLite contention).  What they must never meet is the *machinery* of another session left in
+        # a broken state: lock released twice / not held, statements on a closed or foreign
+        # connection, transaction-state mix-ups, internal assertions.
         for name, lst in sorted(self.fails.items()):
             for sh, e in lst:
-                if getattr(e, 'ponysim_injected', None) or _caused_by_injection(e):
+                kind = _infrastructure_error(e)
+                if kind is None:
+                    if 'database is locked' in str(e):
+                        self.probe('contention_error')
                     continue
-                if sh in ('flush_error', 'body_exc') and not isinstance(e, (RuntimeError, AssertionError)):
-                    continue
-                if 'database is locked' in str(e) or 'database table is locked' in str(e):
-                    self.probe('contention_error')
-                    continue
-                if any(f[1] == name for f in c.fired):
-                    continue
-                self.viol('session-failed-without-own-cause', 'shape=%s|exc=%s|%s' % (sh, type(e).__name__, shape),
-                          'thread %s shape %s failed with %s although no fault was injected into that thread'
-                          % (name, sh, exc_str(e)))
+                self.viol('session-met-broken-machinery', 'shape=%s|exc=%s|%s' % (sh, kind, shape),
+                          'thread %s shape %s failed with %s' % (name, sh, exc_str(e)))
         # liveness once faults stop
         def v2(sub, detail):
             self.viol(sub, shape, detail)
@@ -519,6 +516,47 @@ class C19B(Mode):
             E.db.disconnect()
         except BaseException:
             pass
+
+
+def _chain(e):
+    out = []
+    seen = 0
+    stack = [e]
+    while stack and seen < 30:
+        x = stack.pop()
+        if x is None or any(x is y for y in out):
+            continue
+        out.append(x)
+        seen += 1
+        stack.append(getattr(x, 'original_exc', None))
+        for ei in (getattr(x, 'exceptions', None) or ()):
+            try:
+                stack.append(ei[1])
+            except Exception:
+                pass
+        stack.append(x.__cause__)
+        stack.append(x.__context__)
+    return out
+
+
+def _infrastructure_error(e):
+    """Name of the machinery failure hidden in an exception chain, or None."""
+    for x in _chain(e):
+        if getattr(x, 'ponysim_injected', None):
+            continue
+        if isinstance(x, simsched.SimDeadlock):
+            return 'SimDeadlock'
+        if isinstance(x, AssertionError):
+            return 'AssertionError'
+        if isinstance(x, RuntimeError) and 'lock' in str(x):
+            return 'RuntimeError-lock'
+        if isinstance(x, sqlite3.ProgrammingError):
+            return 'ProgrammingError'
+        if isinstance(x, sqlite3.OperationalError):
+            m = str(x)
+            if 'within a transaction' in m or 'no transaction is active' in m:
+                return 'OperationalError-txstate'
+    return None
 
 
 def _caused_by_injection(e):
@@ -593,6 +631,16 @@ def run_case(case, scratch):
     c.phase = 'main'
     for t, k, kind in case.get('faults', ()):
         c.faults[(t, int(k))] = kind
+
+    def fault_filter(ev, requested):
+        # an integer selects among the fault kinds that are legal at the call actually reached
+        if isinstance(requested, int):
+            legal = shapes_mod.legal_faults(ev, 'quick', 'file')
+            if not legal:
+                return None
+            return legal[requested % len(legal)]
+        return requested
+    c.fault_filter = fault_filter
     outcome = sched.run()
     c.phase = 'post'
     dirty = False
